@@ -75,8 +75,8 @@ def r2(run):
         run.ob("%s|CheckHeadTTL|scope" % fn, okc and okt, c.sp, "context_id and topic are the stored frame's own (%s, %s)" % (fmt(strip(ctx)) if ctx else None, fmt(q.peel(top)) if top else None),
                reason="head-gc-parameters")
         # after the Ok edge of insert_frame
-        ins = q.live_calls(b, C.INSERT_FRAME)
-        ok_edges = [e for i in ins for e in q.call_result_edges(b, i, ok=True)]
+        from .store_shared import store_points
+        ok_edges = [e for (i, es) in store_points(b) for e in es]
         run.ob("%s|CheckHeadTTL|after-store" % fn, bool(ok_edges) and q.dominated(b, c.bb, via_edges=ok_edges), c.sp,
                "head GC is requested only after the frame was stored successfully", reason="head-gc-before-store")
 
@@ -167,6 +167,50 @@ def unit_of(e):
     return units
 
 
+def age_form(run, p, pb, e):
+    """Second accepted spelling of the predicate: `created.elapsed().map_or(D, |age| age >= ttl)` with
+    created = UNIX_EPOCH + Duration::from_millis(id.timestamp()).  `elapsed()` fails exactly when the id's timestamp lies in the
+    future of the local clock; then created + ttl is even further away, so D must be `false` (not expired)."""
+    if not (e[0] == "call" and e[1].fn.endswith(("Result::<T, E>::map_or", "Result::<T, E>::is_ok_and")) and e[2]):
+        return False
+    src = strip(e[2][0])
+    if not (src[0] == "call" and src[1].fn in ("std::time::SystemTime::elapsed",)):
+        return False
+    created = src[2][0]
+    has_ts = any(y[0] == "call" and y[1].fn == "scru128::id::Scru128Id::timestamp" for y in walk(created))
+    units = unit_of(created)
+    epoch = "UNIX_EPOCH" in fmt(strip(created))
+    adds = [y for y in walk(created) if (y[0] == "call" and y[1].fn.endswith("::add")) or (y[0] == "bin" and y[1].startswith("Add"))]
+    run.ob("%s|created" % p, has_ts and epoch and units == {"ms"} and len(adds) == 1, pb.sp,
+           "creation time = UNIX_EPOCH + Duration::from_millis(id.timestamp()) (timestamp: %s, epoch: %s, units: %s)" % (has_ts, epoch, sorted(units)), reason="expiry-units")
+    is_map_or = e[1].fn.endswith("map_or")
+    dflt = strip(e[2][1]) if is_map_or else ("const", {"bool": False})
+    clo = strip(e[2][2] if is_map_or else e[2][1])
+    run.ob("%s|future-id-not-expired" % p, dflt[0] == "const" and dflt[1].get("bool") is False, pb.sp,
+           "a frame whose id lies ahead of the local clock (imported from a peer, clock stepped back) is NOT expired: its deadline created + ttl is later still (default = %s)" % fmt(dflt),
+           reason="expiry-relation")
+    cb = run.facts.body(clo[1].get("def")) if clo[0] == "agg" and clo[1].get("def") else None
+    ok_rel = False
+    rel_txt = "?"
+    if cb is not None:
+        run.touch(cb)
+        rs = cb.return_defs()
+        if len(rs) == 1:
+            cm = q.comparison(rs[0][1])
+            if cm:
+                rel, l, r = cm
+                l_age = any(y[0] == "arg" and y[1] == 2 for y in walk(l))
+                r_age = any(y[0] == "arg" and y[1] == 2 for y in walk(r))
+                l_ttl = any(y[0] == "env" for y in walk(l))
+                r_ttl = any(y[0] == "env" for y in walk(r))
+                if r_age and l_ttl:
+                    rel, l_age, r_ttl = q.SWAP[rel], True, True
+                ok_rel = l_age and r_ttl and rel == "ge"
+                rel_txt = "age %s ttl" % rel
+    run.ob("%s|relation" % p, ok_rel, pb.sp, "expired <=> age >= ttl, i.e. now >= created + ttl (got: %s)" % rel_txt, reason="expiry-relation")
+    return True
+
+
 def r4(run):
     # the expiry predicate = the crate-local callee guarding GCTask::Remove
     preds = set()
@@ -185,6 +229,8 @@ def r4(run):
             continue
         e = strip(rets[0][1])
         cmp_ = q.comparison(e)
+        if not cmp_ and age_form(run, p, pb, e):
+            continue
         if not cmp_:
             run.unrecognised("%s|shape" % p, "expiry predicate does not return a comparison: %s" % fmt(e), pb.sp)
             continue
